@@ -156,7 +156,7 @@ Print Assumptions C03_lexer_tables_regenerated.
 (* ---- from the ABNF itself ----
    Proofs/AbnfInvert.v inverts derivations of the transcribed grammar.  Lexical layer: whatever the ABNF derives for a lexical rule is a token text
    of the shape the lexer's patterns and states accept (and the spelling relation ranges over), and the parser's conversions succeed on it. *)
-From JP Require Import Spec.StringLit Proofs.Reparse Proofs.LexNoCrash Proofs.AbnfDerive Proofs.AbnfInvert Proofs.AbnfSpell Model.PyFloat Model.Parse.
+From JP Require Import Spec.StringLit Proofs.Reparse Proofs.LexNoCrash Proofs.NumMatch Proofs.AbnfDerive Proofs.AbnfInvert Proofs.AbnfSpell Model.PyFloat Model.Parse.
 Theorem C03_abnf_lexical_rules :
   (forall b, D S_ b -> blanks b) /\
   (forall s, D (R r_member_name_shorthand) s -> name_shape s) /\
